@@ -1,6 +1,7 @@
 /- C18: the values the running library reports for the active parameter set ("derived column") against the
    table extracted from the source (RelicVerif/Gen/Params.lean). -/
 import Driver.C03
+import Driver.C11
 import RelicVerif.Model.ParamBase
 import RelicVerif.Gen.Params
 
@@ -29,14 +30,36 @@ def checkAgainstTable (e : C03.Env) : List String :=
         (if (e.kv.lookup "pairf" != some "0") == (c.pairf != "") then [] else ["pairing-family flag differs from the table"]) ++
         -- the affine reference evaluation of r • G = O agrees with the Jacobian evaluation the kernel checked
         (if (Relic.Spec.Curve.mul e.c e.g c.r == none) == jMulIsInfty cv c.gx c.gy c.r then [] else ["affine and Jacobian evaluations of r*G disagree"]) ++
-        -- advertised embedding degree and security level
-        (if c.pairf == "EP_BN" then (if e.kv.lookup "embed" == some "12" then [] else ["embedding degree is not 12"]) else []) ++
+        -- advertised embedding degree: the order of p modulo r, when it is small, is what the library must advertise (and 0 otherwise)
+        (let k := (embedSmall p c.r 60).getD 0
+         if e.kv.lookup "embed" == some (toString k) then [] else
+           ["advertised embedding degree " ++ (e.kv.lookup "embed").getD "?" ++ " but the order of p modulo r is " ++ (if k == 0 then "> 60" else toString k)]) ++
+        (if (e.kv.lookup "level").bind String.toNat? == some c.level then [] else ["advertised level differs from the extracted ep_param_level table"]) ++
         (match (e.kv.lookup "level").bind String.toNat? with
          | some l =>
            -- generic-group security: half the order size, capped by the table in ep_param_level for pairing curves
            let half := (Nat.log2 c.r + 1) / 2
            if l ≤ half ∧ l + 32 ≥ half then [] else ["advertised security level " ++ toString l ++ " inconsistent with a " ++ toString (Nat.log2 c.r + 1) ++ "-bit order"]
          | none => ["no level"])
+
+/-- the twist the library reports (`ep2_param`) against the table extracted from src/epx/relic_ep2_curve.c -/
+def checkTwistAgainstTable (e : C11.Env) : List String :=
+  match (e.kv.lookup "id").bind String.toNat? with
+  | none => ["no id"]
+  | some id =>
+    match Params.curves.find? (·.id == id) with
+    | none => ["curve id " ++ toString id ++ " absent from the extracted table"]
+    | some c =>
+      match c.twist with
+      | none => ["the library installs a twist for " ++ c.name ++ " but the extracted table has none"]
+      | some t =>
+        let p := e.c.d.p
+        (if e.c.a == [t.a0 % p, t.a1 % p] then [] else ["twist a differs from the table"]) ++
+        (if e.c.b == [t.b0 % p, t.b1 % p] then [] else ["twist b differs from the table"]) ++
+        (if e.g == some ([t.x0, t.x1], [t.y0, t.y1]) then [] else ["twist generator differs from the table"]) ++
+        (if e.n == t.r then [] else ["twist order differs from the table"]) ++
+        (if e.h == t.h then [] else ["twist cofactor differs from the table"]) ++
+        (if (e.kv.lookup "qnr").bind String.toInt? == some t.qnr then [] else ["quadratic non-residue differs from the one derived for the table"])
 
 /-- endomorphism constant reported by the library: β is a primitive cube root of unity mod p and ψ(G) = (βx, y) is on the curve -/
 def checkEndom (e : C03.Env) : List String :=
